@@ -67,7 +67,7 @@ theorem sampling_helpers_stateless :
 
 /-- harness subject (harness/c16.cpp) exercising each engine-owning class; `via:` = reached through the named subject's object -/
 def engineCoverage : List (String × String) := [
-  ("AIToolbox::PolicyInterface", "MDP::Policies::sampleAction"),
+  ("AIToolbox::PolicyInterface", "MDP::QGreedyPolicy::sampleAction, MDP::QSoftmaxPolicy::sampleAction, MDP::EpsilonPolicy(QGreedy)::sampleAction, MDP::RandomPolicy::sampleAction, MDP::Policy(matrix)::sampleAction"),
   ("AIToolbox::PolicyInterface<void,void,Action>", "not exercised (Bandit policies; same constructor pattern, pinned by engines_seeded_from_root)"),
   ("AIToolbox::Bandit::Model", "Bandit::Model<bernoulli>"),
   ("AIToolbox::Factored::Bandit::LocalSearch", "LocalSearch(object)"),
